@@ -3397,10 +3397,15 @@ def _var_sym_to_py_ast(
     direct_link = __var_direct_link_to_py_ast(ctx.current_ns, var, py_var_ctx)
     if direct_link is not None:
         # A function parameter of the same Python name would capture a link to a
-        # module global (e.g. `(defn f [x] my.ns/x)`), so fall back to the Var.
+        # module global (e.g. `(defn f [x] my.ns/x)`), so fall back to the Var. The
+        # same goes for a parameter named like the module of another namespace
+        # (e.g. `(defn f [other-ns] other.ns/x)`) when the link goes through it.
+        link_root = direct_link.node
+        while isinstance(link_root, ast.Attribute):
+            link_root = link_root.value
         if not (
-            isinstance(direct_link.node, ast.Name)
-            and ctx.symbol_table.is_py_param(direct_link.node.id)
+            isinstance(link_root, ast.Name)
+            and ctx.symbol_table.is_py_param(link_root.id)
         ):
             return direct_link
     elif ctx.warn_on_var_indirection and not node.is_allow_var_indirection:
